@@ -10,7 +10,7 @@ CONSTANTS NA = 2
           MaxTx = 4
           MaxLogs = 3
           MaxRefund = 2
-          Ops = {"BeginTx", "AddBalance", "SubBalance", "SetBalance", "SetNonce", "SetCode", "SetState", "SelfDestruct", "CreateAccount", "EvmCreate", "Snapshot", "Revert", "Finalise", "IntermediateRoot", "SetTransient", "AddAddress", "AddSlot", "AddRefund", "SubRefund", "AddLog"}
+          Ops = {"BeginTx", "BeginTxL", "AddBalance", "SubBalance", "SetBalance", "SetNonce", "SetCode", "SetState", "SelfDestruct", "CreateAccount", "EvmCreate", "Snapshot", "Revert", "Finalise", "IntermediateRoot", "SetTransient", "AddAddress", "AddSlot", "AddRefund", "SubRefund", "AddLog"}
           RuleNames = {"pre158", "eip158", "cancun", "amsterdam"}
           BaseKinds = {0, 1, 2, 3, 4}
           KeepHist = TRUE
